@@ -1212,7 +1212,20 @@ impl<'a, SE: extensions::ShellExtensions> WordExpander<'a, SE> {
                     _ => {
                         let expanded_default = self.expand_parameter_word(default_value).await?;
                         let expanded_default_value = self.fields_to_string(expanded_default);
-                        self.assign_to_parameter(&parameter, expanded_default_value.clone())
+
+                        // `${!ref:=word}` assigns to the parameter the reference names, not to the
+                        // reference itself.
+                        let target = if indirect {
+                            let reference = self
+                                .expand_parameter_without_indirect(&parameter, true)
+                                .await?;
+                            let name = self.fields_to_string(reference);
+                            brush_parser::word::parse_parameter(name.as_str(), &self.parser_options)?
+                        } else {
+                            parameter
+                        };
+
+                        self.assign_to_parameter(&target, expanded_default_value.clone())
                             .await?;
                         Ok(Expansion::from(expanded_default_value))
                     }
